@@ -790,24 +790,8 @@ func (ex *Exec) loopHead(li *loopInfo, phiIn map[*ssa.Phi]Term) {
 	if len(st.ghost) > 0 || (ex.ct != nil && len(ex.ct.Asserts) > 0) {
 		hasCall := false
 		for b := range li.blocks {
-			for _, in := range b.Instrs {
-				if call, ok := in.(*ssa.Call); ok && ex.ct != nil {
-					cc := &call.Call
-					var nm string
-					switch {
-					case cc.IsInvoke():
-						nm = cc.Method.FullName()
-					case cc.StaticCallee() != nil:
-						nm = cc.StaticCallee().String()
-					default:
-						nm = exprName(cc.Value)
-					}
-					for _, a := range ex.ct.Asserts {
-						if calleeMatches(nm, a.Name) {
-							hasCall = true
-						}
-					}
-				}
+			if ex.instrsHaveEvent(b.Instrs, 0, map[*ssa.Function]bool{}) {
+				hasCall = true
 			}
 		}
 		if hasCall && ex.ct != nil {
@@ -1080,6 +1064,9 @@ func (ex *Exec) instr(in ssa.Instruction) {
 	case *ssa.Send:
 		c.note("%s: channel send at %s modelled as no-op", ex.fn.Name(), relPos(ex.pos(in.Pos())))
 		c.trust("channel sends modelled as no-ops (blocking and delivery not modelled)")
+		// the send itself is a call event named "send" (parameters ch, value) for assert-call clauses: "this request is answered here"
+		ex.curCall = nil
+		ex.assertCalls("send", []string{"ch", "value"}, []Val{ex.val(in.Chan), ex.val(in.X)}, in.Pos())
 	case *ssa.MakeChan:
 		ex.set(in, Val{T: ex.allocRef(), Ty: in.Type()})
 	case *ssa.If, *ssa.Jump:
@@ -1981,4 +1968,62 @@ func (ex *Exec) weightTerm(ms *MapSum, mt *types.Map, v Term) Term {
 	}
 	env := &Env{ex: ex, st: ex.st, old: ex.st, vars: map[string]Val{"x!w": {T: v, Ty: mt.Elem()}}, where: "mapsum " + ms.Name}
 	return env.specCall(sf, []ast.Expr{ast.NewIdent("x!w")}).T
+}
+
+// instrsHaveEvent reports whether executing the instructions can raise a call event that a clause of the contract under
+// verification counts (called(f)): a direct call, go, defer or channel send ("send"), or one inside an in-module callee
+// that the executor may inline (no contract of its own, or an inline contract). Used to havoc the ghost counters at loop heads.
+func (ex *Exec) instrsHaveEvent(instrs []ssa.Instruction, depth int, seen map[*ssa.Function]bool) bool {
+	if ex.ct == nil {
+		return false
+	}
+	match := func(nm string) bool {
+		for _, a := range ex.ct.Asserts {
+			if calleeMatches(nm, a.Name) {
+				return true
+			}
+		}
+		return false
+	}
+	for _, in := range instrs {
+		var cc *ssa.CallCommon
+		switch in := in.(type) {
+		case *ssa.Call:
+			cc = &in.Call
+		case *ssa.Go:
+			cc = &in.Call
+		case *ssa.Defer:
+			cc = &in.Call
+		case *ssa.Send:
+			if match("send") {
+				return true
+			}
+		}
+		if cc == nil {
+			continue
+		}
+		var nm string
+		switch {
+		case cc.IsInvoke():
+			nm = cc.Method.FullName()
+		case cc.StaticCallee() != nil:
+			nm = cc.StaticCallee().String()
+		default:
+			nm = exprName(cc.Value)
+		}
+		if match(nm) {
+			return true
+		}
+		if callee := cc.StaticCallee(); callee != nil && !cc.IsInvoke() && depth < 4 && len(callee.Blocks) > 0 && !seen[callee] {
+			if ct, _ := ex.w.contractFor(callee); ct == nil || ct.Inline {
+				seen[callee] = true
+				for _, b := range callee.Blocks {
+					if ex.instrsHaveEvent(b.Instrs, depth+1, seen) {
+						return true
+					}
+				}
+			}
+		}
+	}
+	return false
 }
